@@ -22,16 +22,47 @@ def solver_check(fn):
         try:
             R, tech = fn(P, tier, SA, holder)
         except RS.NoPath:
-            if not SA.faults or "R" not in holder:
+            if "R" not in holder or (not SA.faults and not any(o.verdict == "differs" for o in grid_obs(SA))):
                 raise
             R, tech = holder["R"], holder.get("tech", "abstract interpretation")
         R.add(SA.fault_obs())
+        R.add(grid_obs(SA))
         R.add(path_uniformity(SA))
         R.analysed["paths"] = SA.nruns
         return R, tech
 
     wrapper.__name__ = fn.__name__
     return wrapper
+
+
+def grid_obs(SA):
+    """R-GRID: on every returning path the back-transform is taken on the padded grid (nx + 2 px by ny + 2 py), so that the
+    crop [py:py+ny, px:px+nx] addresses the user's cells; a path on which truncation and re-padding do not add up to the
+    padded size returns fields on a shifted / differently sized grid"""
+    obs = []
+    seen = set()
+    n = 0
+    for key, (S, res) in SA.runs.items():
+        for r in res:
+            if r.kind != "return":
+                continue
+            try:
+                v = RS.PathView(S, r)
+            except AnalysisError:
+                continue
+            n += 1
+            for nm, N, want in (("x", v.Nx, S.nx + 2 * v.px), ("y", v.Ny, S.ny + 2 * v.py)):
+                if isinstance(N, Expr) and isinstance(want, Expr) and not N.eq(want):
+                    k = (nm, repr(N), repr(want))
+                    if k in seen:
+                        continue
+                    seen.add(k)
+                    obs.append(req_ob("R-GRID", "src/bldfm/solver.py::steady_state_transport_solver (footprint=%s analytic=%s %s mode)" % (key[0], key[1], key[2]),
+                                      "the back-transform is taken on the padded grid in %s" % nm, False,
+                                      detail="transform size %r, padded size %r, on the path %s" % (N, want.expand(), [(d[:60], b) for d, b in r.path][:8]), key={"axis": nm}))
+    if not obs and n:
+        obs.append(req_ob("R-GRID", "src/bldfm/solver.py::steady_state_transport_solver", "the back-transform is taken on the padded grid on every returning path (%d paths)" % n, True))
+    return obs
 
 
 def path_uniformity(SA):
@@ -78,7 +109,7 @@ def path_uniformity(SA):
 
 def _one(vs, what):
     if not vs:
-        raise AnalysisError("no solver path for %s" % what)
+        raise RS.NoPath("no solver path for %s" % what)
     return vs[0]
 
 
